@@ -34,11 +34,9 @@ func verifUnmarshal(data []byte) (*thresholdDTO, error) {
 	if verifDTOFail {
 		return nil, errs.New("harness: cbor decoding failed")
 	}
-	if verifDTO == nil {
-		// serde.UnmarshalCBOR refuses a top-level null / undefined decoded into a pointer type (it
-		// used to return (nil, nil); repaired in /repo, see known_findings.json)
-		return nil, errs.New("harness: decoded value is null")
-	}
+	// (verifDTO == nil models CBOR null / undefined: the real decoder returns the nil pointer without
+	// an error, and the method under test has to check for it — it used to dereference it; repaired
+	// in /repo, see known_findings.json)
 	return verifDTO, nil
 }
 
